@@ -89,11 +89,13 @@ def oracle_manual(case, obs):
             ch.op(cmd)
         elif cmd[0] == "udp":
             tagsrc[cmd[3]] = cmd[1]
-        elif cmd[0] == "pump":
+        elif cmd[0] in ("pump", "pump_drop"):
             start = obs["steps"][i - 1]["log_len"] if i > 0 else 0
             seg = [(e[0], e[2]) for e in obs["log"][start:o["log_len"]]]
             pos = 0
-            for d, v in zip(o["out"], o["verdicts"]):
+            for j, (d, v) in enumerate(zip(o["out"], o["verdicts"])):
+                if cmd[0] == "pump_drop" and j == cmd[2]:
+                    ch.op(["drop", cmd[1]])      # the guard is dropped here: the rule stops applying at once
                 src_host = tagsrc.get(d[6]) if d[2] == 0 else F.owner(hosts, d[0])
                 if F.is_loopback(d[1]) or (src_host is not None and F.is_local(hosts[src_host], d[1])):
                     out.append(("cmd %d: packet %s with a destination local to its sender left the host (egress_all)" % (i, d[:7]), None))
@@ -275,6 +277,7 @@ class Spec(PropSpec):
         cases += [F.gen_fixture(rng, lo=True) for _ in range(15 * n)]
         cases += [F.gen_fixture(rng, with_tcp=True) for _ in range(40 * n)]
         cases += [F.gen_coincide(rng, variant=v) for v in (0, 1, 2) for _ in range(6 * n)]
+        cases += [F.gen_batch_drop(rng) for _ in range(30 * n)]
         return cases
 
     def to_model(self, case, obs):
